@@ -68,6 +68,30 @@ func init() {
 			}
 			t.data = b.Bytes()
 		}
+		// same poke leaving room for exactly [slack] more pages; the buffer is moved to a fresh allocation of that size
+		tightn := func(slack int) {
+			if slack == 0 {
+				tight()
+				return
+			}
+			b := t.buffer
+			b.offset = 8 + t.nextPage*uint64(pageSize)
+			want := int(b.offset) + slack*pageSize + 1
+			if persistent {
+				if err := b.mmapFile.Truncate(int64(want)); err != nil {
+					panic(err)
+				}
+				b.buf = b.mmapFile.Data
+				b.curSz = len(b.buf)
+			} else {
+				nb := Calloc(want, b.tag)
+				copy(nb, b.buf[:b.offset])
+				Free(b.buf)
+				b.buf = nb
+				b.curSz = want
+			}
+			t.data = b.Bytes()
+		}
 		return func(op []string) string {
 			if closed && op[0] != "__end" {
 				// a reopen failed (panicked): the old mapping is gone, nothing may touch it
@@ -102,7 +126,11 @@ func init() {
 			case "datalen":
 				return fmt.Sprint(len(t.data))
 			case "tight":
-				tight()
+				if len(op) > 1 {
+					tightn(int(vu(op[1])))
+				} else {
+					tight()
+				}
 				return "ok"
 			case "fill", "tfill":
 				// set k0, k0+step, ... (value v) until the tree has at least P pages; prints how many keys were set
@@ -110,7 +138,11 @@ func init() {
 				n := 0
 				for t.Stats().NumPages < p && n < 400000 {
 					if op[0] == "tfill" {
-						tight()
+						if len(op) > 5 {
+							tightn(int(vu(op[5])))
+						} else {
+							tight()
+						}
 					}
 					t.Set(k, v)
 					k += step
